@@ -659,3 +659,50 @@ Example c15_team_max_program_refuted :
   sh (snd (team_final (DWorkshare false))) (mkey "dm" 2 2) = (-1)%Z /\
   sh team_serial (mkey "dm" 2 2) = 22%Z.
 Proof. exact Par_Team_Proof.team_max_program_refuted. Qed.
+
+(* ---------------------------------------------------------------- wave 4: "claim under the lock, fill in place after it" *)
+From TK Require Import Par_Claim_Model Par_Claim_Proof.
+
+(* T31 an accepted descriptor contains no write through an iterator / pointer into a shared container that escaped from
+   the place where it was obtained (access kind AEscape, reported by the translator for `*it++ = ...` where
+   `it = shared.end() - b` was taken inside a critical section) *)
+Theorem c15_checker_no_escape : forall accs, check_shared accs = true ->
+  forall a, In a accs -> a_kind a <> AEscape.
+Proof. exact Par_Region_Proof.check_shared_no_escape. Qed.
+Print Assumptions c15_checker_no_escape.
+
+(* T32 the pattern on a growable array with a capacity (Par_Claim_Model: handles = (buffer generation, offset); a claim
+   that does not fit allocates a new generation).  Reserved in full: under EVERY order of claims and fills nothing
+   reallocates, no iteration is in flight during a reallocation, no fill goes through a dangling handle *)
+Theorem c15_claim_fill_reserved : forall (b cap : nat) (es : list event), (b * count_claims es <= cap)%nat ->
+  let s := crun b es (cinit cap) in
+  v_gen (c_vec s) = 0%nat /\ c_raced s = [] /\ c_dangling s = [].
+Proof. exact Par_Claim_Proof.claim_fill_reserved. Qed.
+Print Assumptions c15_claim_fill_reserved.
+
+(* T33 capped below the final size (cap < b * n: the seeded change C15_4 has b = k*k, cap = 2^22): two threads are
+   enough — iteration 0 claims and is slow, the others complete, iteration 0 fills: it was in flight during a
+   reallocation (the race with the reallocating copy), it writes through a handle of a dead generation (use after
+   free) and its block never reaches the live container (lost triplets) *)
+Theorem c15_claim_fill_capped_refuted : forall b n cap : nat, (1 <= b)%nat -> (2 <= n)%nat -> (b <= cap)%nat -> (cap < b * n)%nat ->
+  let s := crun b (slow_first n) (cinit cap) in
+  In 0%nat (c_raced s) /\ In 0%nat (c_dangling s) /\ ~ In 0%nat (c_live s).
+Proof. exact Par_Claim_Proof.claim_fill_capped_refuted. Qed.
+Print Assumptions c15_claim_fill_capped_refuted.
+
+(* the single-threaded order shows nothing, whatever the capacity: only a second thread makes the defect visible *)
+Theorem c15_claim_serial_ok : forall b n cap : nat,
+  let s := crun b (serial n) (cinit cap) in c_raced s = [] /\ c_dangling s = [].
+Proof. exact Par_Claim_Proof.claim_serial_ok. Qed.
+Print Assumptions c15_claim_serial_ok.
+
+(* non-vacuity: blocks of 2, capacity 4 (capped) resp. 6 (reserved), 3 iterations *)
+Example c15_claim_capped_example :
+  let s := crun 2 (slow_first 3) (cinit 4) in
+  c_raced s = [0%nat] /\ c_dangling s = [0%nat] /\ c_live s = [2%nat; 1%nat] /\ v_gen (c_vec s) = 1%nat.
+Proof. exact Par_Claim_Proof.claim_capped_example. Qed.
+
+Example c15_claim_reserved_example :
+  let s := crun 2 (slow_first 3) (cinit 6) in
+  c_raced s = [] /\ c_dangling s = [] /\ c_live s = [0%nat; 2%nat; 1%nat] /\ v_gen (c_vec s) = 0%nat.
+Proof. exact Par_Claim_Proof.claim_reserved_example. Qed.
